@@ -525,6 +525,37 @@ class Evaluator:
                 if ity.startswith("i") and r >= 1 << (bits - 1):
                     r -= 1 << bits
                 return r
+            if bits and all(isinstance(a, int) and not isinstance(a, bool) for a in args):
+                sg = ity.startswith("i")
+                lo, hi = (-(1 << (bits - 1)), (1 << (bits - 1)) - 1) if sg else (0, (1 << bits) - 1)
+
+                def wrap(r):
+                    r &= (1 << bits) - 1
+                    return r - (1 << bits) if sg and r > hi else r
+
+                def some(r):
+                    return Enum("core::option::Option", 1, "Some", [r]) if lo <= r <= hi else Enum("core::option::Option", 0, "None", [])
+                one = {"wrapping_neg": lambda: wrap(-args[0]), "unsigned_abs": lambda: abs(args[0]), "abs": lambda: abs(args[0]),
+                       "signum": lambda: (args[0] > 0) - (args[0] < 0), "count_ones": lambda: bin(args[0] & ((1 << bits) - 1)).count("1"),
+                       "leading_zeros": lambda: bits - (args[0] & ((1 << bits) - 1)).bit_length(),
+                       "trailing_zeros": lambda: bits if args[0] & ((1 << bits) - 1) == 0 else ((args[0] & -args[0]).bit_length() - 1),
+                       "next_power_of_two": lambda: 1 if args[0] <= 1 else 1 << (args[0] - 1).bit_length(),
+                       "checked_neg": lambda: some(-args[0]), "swap_bytes": lambda: int.from_bytes((args[0] & ((1 << bits) - 1)).to_bytes(bits // 8, "little"), "big")}
+                if len(args) == 1 and meth in one and (meth not in ("ilog2",)):
+                    return one[meth]()
+                if len(args) == 1 and meth == "ilog2" and args[0] > 0:
+                    return args[0].bit_length() - 1
+                if len(args) == 1 and meth == "checked_ilog2":
+                    return some(args[0].bit_length() - 1) if args[0] > 0 else Enum("core::option::Option", 0, "None", [])
+                two = {"checked_add": lambda: some(args[0] + args[1]), "checked_mul": lambda: some(args[0] * args[1]),
+                       "saturating_mul": lambda: max(lo, min(hi, args[0] * args[1])), "wrapping_shl": lambda: wrap(args[0] << (args[1] % bits)),
+                       "wrapping_shr": lambda: wrap((args[0] & ((1 << bits) - 1) if not sg else args[0]) >> (args[1] % bits)),
+                       "pow": lambda: args[0] ** args[1], "wrapping_pow": lambda: wrap(args[0] ** args[1]),
+                       "div_ceil": lambda: -((-args[0]) // args[1]) if args[1] > 0 and args[0] >= 0 else _tdiv(args[0], args[1]),
+                       "rem_euclid": lambda: args[0] % abs(args[1]), "div_euclid": lambda: (args[0] - args[0] % abs(args[1])) // args[1],
+                       "rotate_left": lambda: wrap(((args[0] & ((1 << bits) - 1)) << (args[1] % bits)) | ((args[0] & ((1 << bits) - 1)) >> (bits - args[1] % bits)))}
+                if len(args) == 2 and meth in two and not (meth in ("div_ceil", "rem_euclid", "div_euclid") and args[1] == 0) and not (meth in ("pow", "wrapping_pow") and not 0 <= args[1] < 200):
+                    return two[meth]()
             if bits and meth in ("saturating_add_unsigned", "saturating_sub_unsigned", "wrapping_add_unsigned", "wrapping_sub_unsigned",
                                  "checked_add_unsigned") and len(args) == 2:
                 r = args[0] + args[1] if "add" in meth else args[0] - args[1]
